@@ -199,7 +199,14 @@ func (s *Syncer) parallelSync(ctx context.Context, cs consensus.State, headers [
 					defer activeWorkers.Add(-1)
 					for req := range reqChan {
 						resp := workFn(p, req)
-						respChan <- resp
+						// once the round has ended nobody reads respChan
+						// any more; every exit of the loop below cancels
+						// ctx before it waits for the workers
+						select {
+						case respChan <- resp:
+						case <-ctx.Done():
+							return
+						}
 						if resp.err != nil {
 							return
 						}
